@@ -20,6 +20,12 @@ real composition API (`circ.build_api`): `sharing_cases`, `random_shared_cases`,
 10/11/12/16 qubits (from 11 on the textual order of q0..q{n-1} is not the index order) and circuits with
 user-chosen qubit names: `wide_cases`, `random_wide_cases`.
 
+HISTORIES (`history_cases`, `random_history_cases`): the optimizer called 2, 3, 5 times in one process - same circuit /
+same QCircuit object again, grown in place, other circuits / qubit counts / names, an empty circuit in between, a
+result optimised again, a result rewritten by the caller.  Every call is judged and replayed through the model like a
+single case, must return what the same call returns on its own, and the input and result objects of every earlier
+call are read again after every later call and must not have changed.
+
 Correspondence: the run is logged (sections found, the simplified expressions handed to
 `exprs_to_quantum`, the ancillas popped, the re-synthesised circuit, every `simplify_logic`
 call) and replayed through the Lean model (QV.Model.Decopt = decompiler model + compiler model
@@ -110,18 +116,24 @@ def bitstr(k, n):
 
 # ------------------------------------------------------------------ the real code, logged
 
-def code_optimize(n, gates, opts=None):
+def code_optimize(n, gates, opts=None, qc=None, keep=None):
     """run the real circuit_boolean_optimizer on a fresh real circuit; log what the model needs.
     The circuit is built gate by gate (equal id > 0 = the same gate object at several positions, `names` = user-chosen
-    qubit names) or, when the case carries a recipe, through the library's own composition API"""
+    qubit names) or, when the case carries a recipe, through the library's own composition API.
+    A history passes the QCircuit object itself (`qc`, whose gate list the harness denotes as `gates`) and a dict
+    `keep` that receives the input and the result object, to be read again after later calls"""
     from qlasskit.decompiler import decopt
     from qlasskit.qcircuit import QCircuitEnhanced
 
     opts = opts or {}
-    if opts.get("recipe"):
+    if qc is not None:
+        pass
+    elif opts.get("recipe"):
         qc = circ.build_api(opts["recipe"])
     else:
         qc = circ.build_qc(n, gates, share_ids=True, names=opts.get("names"))
+    if keep is not None:
+        keep["qc"] = qc
     before = circ.qc_to_json(qc)
     before_meta = (qc.num_qubits, dict(qc.qubit_map))
     in_ids = set()
@@ -182,6 +194,8 @@ def code_optimize(n, gates, opts=None):
     out = {}
     try:
         r = decopt.circuit_boolean_optimizer(qc)
+        if keep is not None:
+            keep["r"] = r
         out["gates"] = circ.qc_to_json(r)
         out["num_qubits"] = r.num_qubits
         shared = 0
@@ -436,12 +450,15 @@ def active(ctx):
     return ([QUIRK] if fs else []), (fs[0]["id"] if fs else None)
 
 
-def check_batch(ctx, res, cases, bucket, full=True):
+def check_batch(ctx, res, cases, bucket, full=True, outs=None, wrap=None):
+    """`outs`: the code's logged runs when they were made elsewhere (the calls of a history), `wrap[i]`: what to add
+    to the i-th case (history, call number)"""
     quirks, fid = active(ctx)
     cases = [c if len(c) == 3 else (c[0], c[1], None) for c in cases]
     optss = [c[2] for c in cases]
     cases = [(c[0], c[1]) for c in cases]
-    outs = [code_optimize(n, gates, opts) for (n, gates), opts in zip(cases, optss)]
+    if outs is None:
+        outs = [code_optimize(n, gates, opts) for (n, gates), opts in zip(cases, optss)]
     reqs, simp_idx = [], []
     for (n, gates), out in zip(cases, outs):
         reqs.append(model_request(n, gates, out, quirks))
@@ -475,8 +492,15 @@ def check_batch(ctx, res, cases, bucket, full=True):
                              code=opts["api_mismatch"])
         ncl = sum(1 for d in gates if is_cl(d))
         changed = "gates" in out and [gkey(d) for d in out["gates"]] != [gkey(d) for d in gates]
-        res.count({k: v for k, v in case.items() if k != "gates_json"} if (opts or nshared) else dict(n=n, gates=case["gates"]),
-                  nontrivial=(ncl >= 2 and len(gates) >= 2), bucket=bucket)
+        pre = ""
+        if wrap is not None:
+            case.update(wrap[idx])
+            pre = f"call {wrap[idx]['call']} of the history: "
+            res.count(dict(history=wrap[idx]["history"]["label"], call=wrap[idx]["call"], n=n, gates=case["gates"]),
+                      nontrivial=(ncl >= 2 and len(gates) >= 2), bucket=bucket)
+        else:
+            res.count({k: v for k, v in case.items() if k != "gates_json"} if (opts or nshared) else dict(n=n, gates=case["gates"]),
+                      nontrivial=(ncl >= 2 and len(gates) >= 2), bucket=bucket)
         key = "changed" if changed else "unchanged"
         res.extra.setdefault("outcomes", {})
         res.extra["outcomes"][key] = res.extra["outcomes"].get(key, 0) + 1
@@ -560,7 +584,7 @@ def check_batch(ctx, res, cases, bucket, full=True):
         if attributed:
             res.known(attributed)
         else:
-            res.violation(case, what, code=c_code, expected=expected,
+            res.violation(case, pre + what, code=c_code, expected=expected,
                           model=None if rep_q is None or "gates" not in rep_q else dict(gates=short(rep_q["gates"])))
 
 
@@ -916,6 +940,282 @@ def compiled_cases(ctx, count):
     return out
 
 
+# ------------------------------------------------------------------ histories: many calls in one process
+#
+# history = {label, circuits: [{n, gates, names?, recipe?}], steps: [step]},
+# step    = {circ: j, slot?: s, add?: [gates], feed?: k, scribble?: true}
+#   circ      the circuit; without `slot` / `feed` a new QCircuit object is built for the call
+#   slot      a QCircuit object that is kept: built from `circ` at the slot's first step, the SAME object is passed
+#             again at its later steps, after `add` (gates appended to it in place, through QCircuit.append)
+#   feed      the input is the RESULT object of call k (an optimised circuit is optimised again); `circ` is ignored
+#   scribble  after the call the caller empties the circuit it got and puts another gate in
+
+def hist_build(c, adds=()):
+    qc = circ.build_api(c["recipe"]) if c.get("recipe") else circ.build_qc(c["n"], c["gates"], share_ids=True, names=c.get("names"))
+    hist_append(qc, adds)
+    return qc
+
+
+def hist_append(qc, gates):
+    for d in gates:
+        qc.append(circ.make_gate(d), list(d["w"]), circ._param(d))
+
+
+def read_qc(q):
+    try:
+        return dict(gates=circ.qc_to_json(q), num_qubits=q.num_qubits, qubit_map=dict(q.qubit_map))
+    except Exception as e:  # noqa
+        return dict(error=f"reading the circuit raised {type(e).__name__}: {e}")
+
+
+def feedable(c):
+    """the result of an earlier call can be the input of this one: there is one, the caller has not rewritten it, it
+    still reads as it did (else that is reported already) and it is a circuit on its own qubits"""
+    if c.get("r") is None or c.get("scribbled") or "gates" not in (c["r_read"] or {}):
+        return False
+    now = read_qc(c["r"])
+    return now == c["r_read"] and all(isinstance(i, int) and 0 <= i < now["num_qubits"] for d in now["gates"] for i in d["w"]) \
+        and not any(d["c"].startswith("?") for d in now["gates"])
+
+
+def run_history(h):
+    """play a history on the real code.  Per call: the circuit it was about (n, gates as the harness denotes them),
+    the logged run (code_optimize), the result of the same call made on its own (a newly built equal circuit), and
+    whether the input object / the result object read differently after a later call"""
+    from qlasskit.qcircuit import gates as QG
+
+    slots, calls = {}, []
+    for k, st in enumerate(h["steps"]):
+        c = h["circuits"][st["circ"]]
+        s, feed = st.get("slot"), st.get("feed")
+        names = c.get("names")
+        if feed is not None and feedable(calls[feed]):
+            qc = calls[feed]["r"]
+            n, gates, names = qc.num_qubits, [dict(d, id=0) for d in circ.qc_to_json(qc)], None
+            alone = (n, gates, None)
+        else:
+            if s is None:
+                adds = []
+                qc = hist_build(c)
+            elif s not in slots:
+                adds = []
+                slots[s] = [hist_build(c), c, adds]
+                qc = slots[s][0]
+            else:
+                qc, c, adds = slots[s]
+                names = c.get("names")
+                hist_append(qc, st.get("add") or [])
+                adds.extend(dict(d, id=0) for d in (st.get("add") or []))
+            n, gates = c["n"], list(c["gates"]) + list(adds)
+            alone = (c, list(adds))
+        keep = {}
+        out = code_optimize(n, gates, None, qc=qc, keep=keep)
+        call = dict(n=n, gates=gates, opts=dict(names=names) if names else None, out=out, r=keep.get("r"), qc=keep.get("qc"),
+                    changed=None)
+        call["r_read"] = read_qc(call["r"]) if call["r"] is not None else None
+        call["qc_read"] = read_qc(call["qc"])
+        # the same call on its own
+        try:
+            if isinstance(alone[0], dict):
+                call["alone"] = code_optimize(n, gates, None, qc=hist_build(alone[0], alone[1]))
+            else:
+                call["alone"] = code_optimize(n, gates, None)
+        except Exception as e:  # noqa  (the circuit cannot be built a second time: nothing to compare with)
+            call["alone"] = out
+        for j, cj in enumerate(calls):
+            if cj["changed"] is not None:
+                continue
+            # (a slot's object is the caller's: the caller itself appends to it)
+            if cj["r"] is not None and not cj.get("scribbled") and read_qc(cj["r"]) != cj["r_read"]:
+                cj["changed"] = dict(after_call=k, which="result", now=read_qc(cj["r"]))
+            elif not cj.get("slot_object") and read_qc(cj["qc"]) != cj["qc_read"]:
+                cj["changed"] = dict(after_call=k, which="input circuit", now=read_qc(cj["qc"]))
+        call["slot_object"] = s is not None and feed is None
+        if st.get("scribble") and call["r"] is not None:
+            try:
+                call["r"].gates.clear()
+                call["r"].append(QG.H(), [0])
+            except Exception:  # noqa
+                pass
+            call["scribbled"] = True
+        calls.append(call)
+    return calls
+
+
+def out_value(out):
+    return dict(error=out["error"]) if "error" in out else dict(gates=short(out["gates"]), num_qubits=out["num_qubits"])
+
+
+def hist_verdicts(calls):
+    """history-level part of the oracle: [(call, what, info)]; each call is judged against its own input by `judge`
+    like any single case"""
+    bad = []
+    for k, c in enumerate(calls):
+        if out_value(c["out"]) != out_value(c["alone"]):
+            bad.append((k, f"call {k} of the history returns something else than the same call made on its own "
+                           "(a newly built equal circuit)", dict(in_the_history=out_value(c["out"]), on_its_own=out_value(c["alone"]))))
+        if c["changed"] is not None:
+            ch = c["changed"]
+            before = c["r_read"] if ch["which"] == "result" else c["qc_read"]
+            bad.append((k, f"the {ch['which']} of call {k} of the history reads differently after call {ch['after_call']}",
+                        dict(right_after_the_call=short(before["gates"]) if "gates" in before else before,
+                             later=short(ch["now"]["gates"]) if "gates" in ch["now"] else ch["now"])))
+    return bad
+
+
+def hist_features(h):
+    fs = set()
+    cs, steps = h["circuits"], h["steps"]
+    plain = [s for s in steps if s.get("feed") is None]
+    seq = [(s["circ"], json.dumps(s.get("add") or [])) for s in plain]
+    if any(seq[i] == seq[j] for i in range(len(seq)) for j in range(i)):
+        fs.add("a circuit optimised again")
+    if len({s["circ"] for s in plain}) > 1:
+        fs.add("different circuits")
+    if len({cs[s["circ"]]["n"] for s in plain}) > 1:
+        fs.add("different qubit counts")
+    if any(not cs[s["circ"]]["gates"] for s in plain):
+        fs.add("empty circuit")
+    if any(cs[s["circ"]].get("names") for s in plain):
+        fs.add("user-chosen qubit names")
+    if any(s.get("slot") is not None for s in steps):
+        fs.add("same QCircuit object passed again")
+    if any(s.get("add") for s in steps):
+        fs.add("QCircuit object extended in place between calls")
+    if any(s.get("feed") is not None for s in steps):
+        fs.add("a result optimised again")
+    if any(s.get("scribble") for s in steps):
+        fs.add("caller rewrites a result it got")
+    return sorted(fs)
+
+
+def check_histories(ctx, res, hists, bucket, full=True):
+    cases, outs, wrap, per = [], [], [], []
+    for h in hists:
+        calls = run_history(h)
+        hj = dict(label=h["label"], circuits=h["circuits"], steps=h["steps"])
+        for k, c in enumerate(calls):
+            cases.append((c["n"], c["gates"], c["opts"]))
+            outs.append(c["out"])
+            wrap.append(dict(history=hj, call=k))
+        per.append((hj, calls))
+        x = res.extra.setdefault("histories", dict(histories=0, calls=0, by_number_of_calls={}, by_feature={}))
+        x["histories"] += 1
+        x["calls"] += len(calls)
+        x["by_number_of_calls"][str(len(calls))] = x["by_number_of_calls"].get(str(len(calls)), 0) + 1
+        for f in hist_features(h):
+            x["by_feature"][f] = x["by_feature"].get(f, 0) + 1
+    check_batch(ctx, res, cases, bucket, full, outs=outs, wrap=wrap)
+    for hj, calls in per:
+        for k, what, info in hist_verdicts(calls):
+            c = calls[k]
+            res.violation(dict(n=c["n"], gates=short(c["gates"]), gates_json=c["gates"], history=hj, call=k), what, **info)
+
+
+def mk_history(label, circuits, steps):
+    """circuits: {key: (n, gates[, opts])}, steps: [(key[, {slot, add, feed, scribble}])]"""
+    keys, cs, st = {}, [], []
+    for s in steps:
+        key = s[0]
+        extra = s[1] if len(s) > 1 else {}
+        if key not in keys:
+            c = circuits[key]
+            o = (c[2] if len(c) > 2 else None) or {}
+            d = dict(n=c[0], gates=c[1])
+            if o.get("names"):
+                d["names"] = o["names"]
+            if o.get("recipe"):
+                d["recipe"] = o["recipe"]
+            keys[key] = len(cs)
+            cs.append(d)
+        st.append(dict(circ=keys[key], **extra))
+    return dict(label=label, circuits=cs, steps=st)
+
+
+def history_cases():
+    """circuit_boolean_optimizer called 2, 3, 5 times in one process, for every section shape (four of the history
+    shapes each, in rotation, so that every shape meets every kind of section)"""
+    B = G("Barrier", [])
+    S0 = dict(slot=0)
+    names = list(SECTIONS)
+    out = []
+    fixed = dict(empty=(3, []), empty1=(1, []), one=(1, [G("X", [0])]), seps=(3, [SEPS[0], SEPS[1]]))
+    for i, nm in enumerate(names):
+        r, r2, r3 = SECTIONS[nm], SECTIONS[names[(i + 3) % len(names)]], SECTIONS[names[(i + 5) % len(names)]]
+        cs = dict(fixed)
+        cs["a"] = (3, r)
+        cs["b"] = (3, [SEPS[i % len(SEPS)]] + r2 + [B, SEPS[(i + 4) % len(SEPS)]] + r)
+        cs["c"] = (5, [G("H", [4])] + remap(r3, (4, 2, 0)) + [G("CZ", [3, 4])] + remap(r, (1, 2, 3)),
+                   dict(names=circ.name_schemes(5)[("letters", "reversed-q", "shifted-q")[i % 3]]) if i % 2 else None)
+        shapes = [
+            ("same circuit twice", [("a",), ("a",)]),
+            ("same QCircuit object twice", [("b", S0), ("b", S0)]),
+            ("a b a", [("a",), ("b",), ("a",)]),
+            ("b empty a", [("b",), ("empty",), ("a",)]),
+            ("a b c a b", [("a",), ("b",), ("c",), ("a",), ("b",)]),
+            ("c(5 qubits) a one(1 qubit)", [("c",), ("a",), ("one",)]),
+            ("QCircuit object grown in place", [("a", S0), ("a", dict(slot=0, add=[SEPS[0]] + r2)), ("a", dict(slot=0, add=[G("X", [1])]))]),
+            ("result optimised again", [("b",), ("b", dict(feed=0)), ("b", dict(feed=1))]),
+            ("result rewritten by the caller, same circuit again", [("a", dict(scribble=True)), ("a",), ("b",)]),
+            ("b a result-of-b empty(1 qubit) result-of-result", [("b",), ("a",), ("b", dict(feed=0)), ("empty1",), ("b", dict(feed=2))]),
+            ("a separators-only a", [("a",), ("seps",), ("a",)]),
+            ("same QCircuit object, result rewritten by the caller", [("b", dict(slot=0, scribble=True)), ("b", S0)]),
+        ]
+        for j in range(4):
+            label, steps = shapes[(i + 3 * j) % len(shapes)]
+            out.append(mk_history(f"{label} / section {nm}", cs, steps))
+    # wide, shared gate objects, API-built
+    n = 11
+    s = circ.with_ids(SECTIONS["swap01"], 1)
+    cs = dict(a=(3, SECTIONS["x.cx.x.cx"]), one=fixed["one"],
+              w=(n, remap(SECTIONS["swap+x"], (n - 1, 2, n - 2)) + [G("H", [n - 1])] + remap(SECTIONS["xx"], (9, 1, 2))),
+              wn=(n, [G("T", [2])] + remap(SECTIONS["palin"], (2, 9, n - 1)), dict(names=circ.name_schemes(n)["words"])),
+              sh=(3, s + [SEPS[0]] + s),
+              api=circ.api_case(dict(n=5, subs=[dict(n=3, gates=SECTIONS["cycle"])],
+                                     steps=[dict(op="append_circuit", sub=0, qubits=[1, 2, 3]), dict(op="gate", g=G("H", [4])),
+                                            dict(op="append_circuit", sub=0, qubits=[1, 2, 3])])))
+    out.append(mk_history("widths 11 3 1 11 named 3", cs, [("w",), ("a",), ("one",), ("wn",), ("a",)]))
+    out.append(mk_history("shared gate objects, api, wide", cs, [("sh",), ("api",), ("w",)]))
+    out.append(mk_history("wide QCircuit object twice, grown", cs, [("w", S0), ("w", S0), ("w", dict(slot=0, add=[G("H", [0]), G("X", [n - 1]), G("X", [n - 1])]))]))
+    out.append(mk_history("api result optimised again", cs, [("api",), ("api", dict(feed=0)), ("sh",), ("sh", dict(feed=2)), ("api",)]))
+    return out
+
+
+def random_history_cases(rng, count, max_n):
+    """random histories of 2..5 calls over the random generators of this file (now and then wide / shared gate objects
+    / empty), QCircuit objects passed again and grown in place, results optimised again, results rewritten"""
+    for k in range(count):
+        ncalls = rng.choice([2, 2, 3, 3, 3, 4, 5, 5])
+        ncirc = rng.randint(1, ncalls)
+        cs = {}
+        for i in range(ncirc):
+            x = rng.random()
+            if x < 0.08:
+                cs[i] = (rng.randint(1, 4), [])
+            elif x < 0.18:
+                cs[i] = next(random_wide_cases(rng, 1))
+            elif x < 0.33:
+                cs[i] = next(random_shared_cases(rng, 1))
+            else:
+                cs[i] = next(random_cases(rng, 1, max_n))
+        steps, slots = [], set()
+        for j in range(ncalls):
+            key = rng.randrange(ncirc) if j >= ncirc else j
+            extra = {}
+            x = rng.random()
+            if x < 0.3:
+                extra["slot"] = key
+                if key in slots and rng.random() < 0.5:
+                    extra["add"] = [circ.rand_gate(rng, cs[key][0], kinds=["X", "CX", "H", "Barrier", "CCX", "T"]) for _ in range(rng.randint(1, 3))]
+                slots.add(key)
+            elif x < 0.45 and j > 0:
+                extra["feed"] = rng.randrange(j)
+            if rng.random() < 0.1:
+                extra["scribble"] = True
+            steps.append((key, extra))
+        yield mk_history(f"random {k}", cs, steps)
+
+
 def run(ctx: Ctx) -> Result:
     res = Result("C12")
     rng = ctx.rng
@@ -929,11 +1229,16 @@ def run(ctx: Ctx) -> Result:
         "10/11/12/16 qubits at several places incl. the qubits whose names sort differently as text, sections touching every "
         "qubit, user-chosen qubit names (judged by the classical action on all / sampled basis states and gate-by-gate "
         "identity of the non-classical gates); random variants of these; "
+        "histories: the optimizer called 2, 3, 5 times in one process (same circuit again, same QCircuit object again, grown in "
+        "place, different circuits / qubit counts / names, empty circuit in between, a result optimised again, a result "
+        "rewritten by the caller) - every call judged like a single case and compared with the same call made on its own, "
+        "inputs and results of earlier calls read again after every later call; random histories; "
         "case = (n, gate list[, qubit names, recipe]); non-trivial = at least two classical gates"
     )
     check_batch(ctx, res, systematic_cases(), "systematic")
     check_batch(ctx, res, sharing_cases(), "shared-objects")
     check_batch(ctx, res, wide_cases(), "wide")
+    check_histories(ctx, res, history_cases(), "history-calls")
     check_batch(ctx, res, list(strings_cases(4 if ctx.thorough else 3)), "strings12")
     rc = list(random_cases(rng, 24000 if ctx.thorough else 2400, MAX_SV if ctx.thorough else 5))
     for i in range(0, len(rc), 2000):
@@ -941,6 +1246,8 @@ def run(ctx: Ctx) -> Result:
     check_batch(ctx, res, list(random_shared_cases(rng, 2000 if ctx.thorough else 150)), "random-shared")
     check_batch(ctx, res, list(random_api_cases(rng, 1000 if ctx.thorough else 80)), "random-api")
     check_batch(ctx, res, list(random_wide_cases(rng, 1000 if ctx.thorough else 80)), "random-wide")
+    check_histories(ctx, res, list(random_history_cases(rng, 600 if ctx.thorough else 60, MAX_SV if ctx.thorough else 5)),
+                    "random-history-calls")
     check_batch(ctx, res, compiled_cases(ctx, 150 if ctx.thorough else 25), "compiled")
     res.exhaustive = True
     res.notes.append("X/CX/CCX strings on 3 qubits enumerated completely up to the stated length; section patterns "
@@ -976,6 +1283,8 @@ def replay(ctx: Ctx, payload):
         else:
             print("no failing input in this replay file (tie-broken record)")
             return 2
+    if "history" in case:
+        return replay_history(case["history"])
     n, gates = case["n"], case["gates_json"]
     opts = dict(names=case.get("names"), recipe=case.get("recipe"))
     print("replaying", json.dumps(short(gates)), "on", n, "qubits" +
@@ -990,3 +1299,31 @@ def replay(ctx: Ctx, payload):
     if v is not None:
         print("expected:", json.dumps(v[1], default=str))
     return 0 if v is None else 1
+
+
+def replay_history(h):
+    print("replaying the history:", h["label"])
+    for i, c in enumerate(h["circuits"]):
+        print(f"  circuit {i}: {c['n']} qubits", json.dumps(short(c["gates"])),
+              ("names " + json.dumps(c["names"])) if c.get("names") else "", "(built through the composition API)" if c.get("recipe") else "")
+    calls = run_history(h)
+    hv = hist_verdicts(calls)
+    rc = 0
+    for k, (st, c) in enumerate(zip(h["steps"], calls)):
+        print(f"call {k}: " + (f"the result of call {st['feed']}" if st.get("feed") is not None else f"circuit {st['circ']}") +
+              (f", QCircuit object kept in slot {st['slot']}" if st.get("slot") is not None and st.get("feed") is None else "") +
+              (f", after appending {json.dumps(short(st['add']))} to it" if st.get("add") else "") +
+              (", the caller rewrites the result afterwards" if st.get("scribble") else ""))
+        print("   input:", json.dumps(short(c["gates"])), "on", c["n"], "qubits")
+        print("   code:", json.dumps(out_value(c["out"])))
+        v = judge(c["n"], c["gates"], c["out"])
+        print("   oracle:", "property holds" if v is None else v[0])
+        if v is not None:
+            print("   expected:", json.dumps(v[1], default=str))
+            rc = 1
+        for kk, what, info in hv:
+            if kk == k:
+                print("   oracle:", what)
+                print("   ", json.dumps(info, default=str))
+                rc = 1
+    return rc
